@@ -106,7 +106,11 @@ def single {V} : Option (List V) → Option (PV V)
 
 mutual
 def evalExpr {V} (S : Sem V) (ρ : Store V) : Expr → Option (PV V)
-  | .var x => ρ x
+  | .var x =>
+    -- a local variable, else an attribute parameter: a Python scalar that has not met an operator yet
+    match ρ x with
+    | some pv => some pv
+    | none => (S.attrLit x).map PV.py
   | .lit l => some (.py l)
   | .call dom op sig args attrs =>
     match evalExprs S ρ args with
@@ -304,6 +308,16 @@ def straightLine : List Stmt → Bool
   | .skip :: ss => straightLine ss
   | _ => false
 
+/-- Straight-line bodies with tuple assignment `x, y = op.Foo(…)` from a multi-output operator. -/
+def straightLineT : List Stmt → Bool
+  | [] => false
+  | [.ret _ bare] => !bare
+  | .assign _ _ :: ss => straightLineT ss
+  | .par _ _ :: ss => straightLineT ss
+  | .tuple _ (.call _ _ _ _ _) :: ss => straightLineT ss
+  | .skip :: ss => straightLineT ss
+  | _ => false
+
 end OV.C01
 
 namespace OV.C01
@@ -453,6 +467,11 @@ def forTopStmt : Stmt → VSet → Bool
   | .while_ (.var t) body, lo => whileOK t body lo
   | s, _ => ifStmt s
 
+/-- `x = <literal>` / `x = -<literal>`: the variable holds a Python scalar until an operator consumes it. -/
+def litAssign : Stmt → Bool
+  | .assign _ e => !tensorRhs e
+  | _ => false
+
 /-- Function bodies of the loop fragment: `if`-fragment statements and `for i in range(b)` / `while t` loops over
 `if`-fragment bodies (optionally ending in `if b: break`), followed by one `return e1, …, en`. -/
 def forLine : List Stmt → Bool
@@ -463,13 +482,24 @@ def forLine : List Stmt → Bool
     | _, _ => forTopStmt s (liveInBlock ss []) && forLine ss
 
 /-- Function bodies of the nested-loop fragment: statements of `nestStmt` (loops nested in loops and branches
-to any depth, no `break`) or of the loop fragment of `forLine` (top-level loops over `if`-fragment bodies, with a
+to any depth, no `break`), top-level assignments of a bare literal `x = 2.0`, or of the loop fragment of `forLine` (top-level loops over `if`-fragment bodies, with a
 trailing `break` allowed), followed by one `return e1, …, en`. -/
 def nestLine : List Stmt → Bool
   | [] => false
   | s :: ss =>
     match s, ss with
     | .ret _ bare, [] => !bare
-    | _, _ => (nestStmt s (liveInBlock ss []) || forTopStmt s (liveInBlock ss [])) && nestLine ss
+    | _, _ => (litAssign s || nestStmt s (liveInBlock ss []) || forTopStmt s (liveInBlock ss [])) && nestLine ss
+
+/-- The variables a function body assigns a bare literal at top level … -/
+def litTargets : List Stmt → List Name
+  | [] => []
+  | .assign x e :: ss => if tensorRhs e then litTargets ss else x :: litTargets ss
+  | _ :: ss => litTargets ss
+
+/-- … and the names every other top-level statement may bind or reads bare. -/
+def targetsTop : List Stmt → List Name
+  | [] => []
+  | s :: ss => (if litAssign s then [] else targetsStmt s) ++ targetsTop ss
 
 end OV.C01
